@@ -544,6 +544,29 @@ let rec judge_case (u : uni) (case : sx) (obs : sx list) : verdict =
        (match obs with
         | [L [A "ok"; A h]] -> if string_of_hex h <> model then fail v "corr-unknown" "unknown-field copy differs"
         | _ -> fail v "harness" "unparsable observation")
+   | L (A "unknownops" :: A hx :: ops) ->
+       let b = bytes_of_hex hx in
+       let os = List.map (function
+         | L [A o; A x; A y] -> (n_of_string o, (n_of_string x, n_of_string y))
+         | L [A o] -> (n_of_string o, (N0, N0))
+         | _ -> failwith "unknownops op") ops in
+       let model = uf_run uf_new b os in
+       (match obs with
+        | [L (A "ok" :: rs)] ->
+            let rec cmp ms rs = match ms, rs with
+              | [], [] -> ()
+              | UPanic :: _, [A "panic"] -> ()
+              | UBytes g :: mr, A h :: rr ->
+                  if bytes_of_hex h <> g then fail v "corr-unknown" "recorder copy differs from the recorded extents" else cmp mr rr
+              | UNum n :: mr, A h :: rr ->
+                  if string_of_hex h <> string_of_n n then fail v "corr-unknown" ("recorder size: model " ^ string_of_n n ^ " impl " ^ string_of_hex h) else cmp mr rr
+              | UJunk :: _, _ -> fail v "harness" "generated operations expose the allocation (generator error)"
+              | _, _ -> fail v "corr-unknown" "recorder outputs differ in number or kind" in
+            if List.mem UPanic model then begin
+              (* the hook's outputs are lost when the Copy panics *)
+              if rs <> [A "panic"] then fail v "corr-unknown" "an extent beyond the input must panic (slice bounds), not read"
+            end else cmp model rs
+        | _ -> fail v "harness" "unparsable observation")
    | L [A "dispatch"] ->
        (match obs with
         | [L [A "ok"; A joined]] ->
